@@ -160,9 +160,9 @@ pub fn gen_ops(seed: u64, w: &World, mix: &OpMix) -> Vec<Op> {
         }
         let op = match k {
             0 if r.chance(3) => {
-                let n = match r.below(20) {
-                    0..=11 => r.range(2, 6) as u32,
-                    12..=16 => 255 + r.below(3) as u32,
+                let n = match r.below(40) {
+                    0..=25 => r.range(2, 6) as u32,
+                    26..=37 => 255 + r.below(3) as u32,
                     _ => 65_535 + r.below(3) as u32,
                 };
                 Op::Burst(*r.pick(&[0u8, 0, 1, 2]), n, subset(&mut r), subset(&mut r))
@@ -1184,17 +1184,21 @@ impl<'a> Exec<'a> {
                         let bv: Vec<&str> = b.iter().map(|s| s.as_str()).collect();
                         match kind {
                             0 => {
-                                for i in 0..*n {
-                                    sut.use_tags(if i % 2 == 0 { &av } else { &bv });
-                                }
+                                seams::track(|| {
+                                    for i in 0..*n {
+                                        sut.use_tags(if i % 2 == 0 { &av } else { &bv });
+                                    }
+                                });
                                 model.tags = if *n % 2 == 1 { a.iter().cloned().collect() } else { b.iter().cloned().collect() };
                                 model.version += 1;
                                 stats.tag_switches += *n as u64;
                             }
                             2 => {
-                                for _ in 0..*n {
-                                    sut.enable_tags(&av);
-                                }
+                                seams::track(|| {
+                                    for _ in 0..*n {
+                                        sut.enable_tags(&av);
+                                    }
+                                });
                                 for x in a {
                                     model.tags.insert(x.clone());
                                 }
